@@ -558,6 +558,10 @@ class MethodBuilder:
                         self.expr(a)
                     return
                 if "condition_variable" in bty:
+                    if op and op.startswith("notify") and getattr(self, "notify_guarded", False):
+                        # the destructor of this class waits on the condition variable: a waiter woken by the flag may destroy the
+                        # object, so the notification itself must happen before the lock is released
+                        self.emit(("Rd", "notify(%s)" % bname))
                     return
                 # call of another method of the same class on this
                 if base.get("kind") == "CXXThisExpr" or (ck == "MemberExpr" and not callee.get("inner")):
@@ -881,6 +885,35 @@ def annotate(g, entry, pre, posts=None):
     return [a or "Any" for a in ann], prob
 
 
+CV_WAITS = ("wait", "wait_for", "wait_until")
+
+
+def dtor_waits_on_cv(w, cls):
+    """does the destructor of cls (through calls of methods of the same class) block in a condition-variable wait?
+    Then a thread released by that wait may destroy the object, and every notify must be done under the lock."""
+    short = cls.split("::")[-1]
+    seen, todo = set(), ["~" + short]
+    while todo:
+        fn = todo.pop()
+        if fn in seen: continue
+        seen.add(fn)
+        for fnode in w.funcs.get((cls, fn), []):
+            stack = [fnode]
+            while stack:
+                n = stack.pop()
+                if not isinstance(n, dict): continue
+                if n.get("kind") in ("CXXMemberCallExpr", "CallExpr") and n.get("inner"):
+                    c = unwrap(n["inner"][0])
+                    nm = c.get("name") or c.get("member")
+                    b = unwrap((c.get("inner") or [{}])[0]) if c.get("inner") else {}
+                    if nm in CV_WAITS and "condition_variable" in b.get("type", {}).get("qualType", ""):
+                        return True
+                    if nm and (cls, nm) in w.funcs and b.get("kind") in ("CXXThisExpr", None):
+                        todo.append(nm)
+                stack.extend(n.get("inner", []))
+    return False
+
+
 def extract_classes(w):
     """returns dict class -> {fields, methods: {name: {nodes, annot, pre, post, public}}}, problems"""
     out, problems, guard_problems = {}, [], []
@@ -922,6 +955,11 @@ def extract_classes(w):
                 if f != mutex and "condition_variable" not in t and "std::mutex" not in t and "atomic" not in t
                 and not t.startswith("const ") and f not in conf.get("exclude", [])}
         mnames = set(fn for (c, fn) in w.funcs if c == cls)
+        notify_guarded = dtor_waits_on_cv(w, cls)
+        if notify_guarded:
+            for f, t in fields.items():
+                if "condition_variable" in t:
+                    data["notify(%s)" % f] = "pseudo field: notification on %s" % f
         methods = {}
         for (c, fn), nodes in sorted(w.funcs.items()):
             if c != cls:
@@ -934,6 +972,7 @@ def extract_classes(w):
                 lockparams = [p["name"] for p in fnode.get("inner", []) if p.get("kind") == "ParmVarDecl"
                               and ("unique_lock" in p.get("type", {}).get("qualType", "")) and p.get("name")]
                 mb = MethodBuilder(cls, mutex, set(data), mnames, lockparams)
+                mb.notify_guarded = notify_guarded
                 for x in fnode.get("inner", []):
                     if x.get("kind") == "CompoundStmt":
                         mb.stmt(x)
